@@ -423,7 +423,7 @@ func runC07(c *core.Ctx) {
 				return
 			}
 			var lenOp, cntOp ssa.Instruction
-			for _, o := range []ssa.Value{b.X, b.Y} {
+			for _, o := range []ssa.Value{core.Resolve(b.X), core.Resolve(b.Y)} {
 				if call, isCall := o.(*ssa.Call); isCall {
 					if core.IsBuiltin(&call.Call, "len") && core.FieldKey(call.Call.Args[0]) == "BufferedChannelQueue.blockingQueue" {
 						lenOp = call
